@@ -101,3 +101,109 @@ Example C02_example :
   length (dactive curr ex_prog) = 1%nat /\ active curr (lower ex_prog) = dactive curr ex_prog /\
   exec_rtl curr (lower ex_prog) (fun _ => 0) 0%nat = 10 /\ exec_rtl curr (lower ex_prog) (fun _ => 0) 1%nat = 2.
 Proof. vm_compute. repeat split. Qed.
+
+(* ---------- FSM (model: the FSM part of Model/Dsl.v; proofs in Proofs/DslP.v) ---------- *)
+(* State encodings are allocated on first reference (State(name), `m.next = name`, fsm.ongoing(name)), whatever the
+   order: the names are distinct, the codes are 0, 1, 2, .. in order of first reference, and exactly the referenced
+   names have a code. *)
+Theorem C02_fsm_encoding refs :
+  (NoDup (map fst (fsm_encoding refs)) /\
+   map snd (fsm_encoding refs) = map Z.of_nat (seq 0 (length (fsm_encoding refs)))) /\
+  (forall s, In s (map fst (fsm_encoding refs)) <-> In s refs).
+Proof. exact (fsm_encoding_ok refs). Qed.
+Print Assumptions C02_fsm_encoding.
+
+(* distinct states have distinct codes *)
+Theorem C02_fsm_encoding_injective refs s1 s2 k :
+  assoc_get (fsm_encoding refs) s1 = Some k -> assoc_get (fsm_encoding refs) s2 = Some k -> s1 = s2.
+Proof. exact (enc_ok_injective (fsm_encoding refs) s1 s2 k (proj1 (fsm_encoding_ok refs))). Qed.
+Print Assumptions C02_fsm_encoding_injective.
+
+(* The "FSM" branch of _pop_ctrl with that encoding: the state register is an unsigned signal whose shape represents
+   every code, and when it holds the code of state s the Switch makes active exactly the body of s. *)
+Theorem C02_fsm_selects_active_state curr reg_id init refs states og reg iv ogs sw s body :
+  pop_fsm reg_id init (fsm_encoding refs) [] states og = Some (reg, iv, ogs, [sw]) ->
+  NoDup (map fst states) -> (forall s', In s' (map fst states) -> In s' refs) ->
+  env_ok curr reg ->
+  In (s, body) states -> assoc_get (fsm_encoding refs) s = Some (denote curr reg) ->
+  reg = ESig reg_id (shape_of reg) /\ sgn (shape_of reg) = false /\
+  (forall s' k, assoc_get (fsm_encoding refs) s' = Some k -> in_rangeb (shape_of reg) k = true) /\
+  active curr sw = active_list curr body.
+Proof. exact (pop_fsm_active curr reg_id init refs states og reg iv ogs sw s body). Qed.
+Print Assumptions C02_fsm_selects_active_state.
+
+(* a register value that is the code of no defined state selects nothing *)
+Theorem C02_fsm_unknown_code_selects_nothing enc states v :
+  (forall s k, In s (map fst states) -> assoc_get enc s = Some k -> k <> v) -> fsm_active_body v enc states = [].
+Proof. exact (fsm_active_body_none enc states v). Qed.
+Print Assumptions C02_fsm_unknown_code_selects_nothing.
+
+(* ongoing(s) is driven with (state register == code of s): 1 exactly while the FSM is in state s *)
+Theorem C02_fsm_ongoing curr reg k :
+  denote curr (EOp2 OEq reg (mk_const_auto k)) = if denote curr reg =? k then 1 else 0.
+Proof. exact (fsm_ongoing_value curr reg k). Qed.
+Print Assumptions C02_fsm_ongoing.
+Theorem C02_fsm_ongoing_stmts reg enc og l : fsm_ongoing_stmts reg enc og = Some l ->
+  length l = length og /\
+  forall i s o, nth_error og i = Some (s, o) ->
+    exists k, assoc_get enc s = Some k /\ nth_error l i = Some (SAssign o (EOp2 OEq reg (mk_const_auto k))).
+Proof. exact (fsm_ongoing_stmts_spec reg enc og l). Qed.
+Print Assumptions C02_fsm_ongoing_stmts.
+
+(* non-vacuity: states B(=7), A(=3), C(=5) defined in that order, `m.next = C` inside B, ongoing(A) asked first:
+   codes A=0, B=1, C=2; init=C; the register (signal 9) is unsigned(2) with init 2; in state B (register = 1) the body
+   of B is active *)
+Example C02_fsm_example :
+  let refs := [3; 7; 5; 3; 5]%nat in
+  let bodyA := [SAssign (ESig 0 (Sh 4 false)) (EConst 1 (Sh 1 false))] in
+  let bodyB := [SAssign (ESig 0 (Sh 4 false)) (EConst 2 (Sh 2 false))] in
+  let states := [(7, bodyB); (3, bodyA); (5, [])]%nat in
+  let curr : env := fun i => match i with 9%nat => 1 | _ => 0 end in
+  fsm_encoding refs = [(3, 0); (7, 1); (5, 2)]%nat /\
+  exists ogs sw,
+    pop_fsm 9 (Some 5%nat) (fsm_encoding refs) [] states [(3%nat, ESig 8 (Sh 1 false))]
+      = Some (ESig 9 (Sh 2 false), 2, ogs, [sw]) /\
+    active curr sw = active_list curr bodyB /\
+    map (fun a => denote curr (snd a)) (active_list curr ogs) = [0].
+Proof. vm_compute. split; [reflexivity|]. eexists. eexists. repeat split. Qed.
+
+(* ---------- the control-flow lowering regenerated from hdl/_dsl.py on every run (Gen/DslGen.v) equals the model ---------- *)
+From V.Proofs Require GenEqDsl.
+From V.Gen Require DslGen.
+
+(* Module._pop_ctrl, "If": for every list of tests and recorded bodies, what is appended to the statements of a
+   domain is the model's lowering of the If/Elif/Else whose bodies are the domain's parts of the recorded bodies *)
+Theorem C02_translated_pop_if domain brs (he : bool) els bodies :
+  map (fun b : DslGen.ddict => DslGen.py_get b domain []) bodies =
+    map (fun br : expr * list dstmt => map lower (snd br)) brs ++ (if he then [map lower els] else []) ->
+  DslGen.g_pop_if domain (map fst brs) bodies = [lower (DIf brs he els)].
+Proof. exact (GenEqDsl.gen_pop_if_eq domain brs he els bodies). Qed.
+Print Assumptions C02_translated_pop_if.
+
+(* Module._pop_ctrl, "Switch" *)
+Theorem C02_translated_pop_switch domain t cases cs :
+  map (fun c : option (list pattern) * DslGen.ddict => (fst c, DslGen.py_get (snd c) domain [])) cases =
+    map (fun c => (fst c, map lower (snd c))) cs ->
+  DslGen.g_pop_switch domain t cases = [lower (DSwitch t cs)].
+Proof. exact (GenEqDsl.gen_pop_switch_eq domain t cases cs). Qed.
+Print Assumptions C02_translated_pop_switch.
+
+(* Module._pop_ctrl, "FSM": state register, its init value, ongoing() assignments, Switch over the register.
+   Guard: the recorded states are a dict, so their names are distinct. *)
+Theorem C02_translated_pop_fsm domain fresh init enc dec0 (states : list (nat * DslGen.ddict)) og :
+  NoDup (map fst states) ->
+  DslGen.g_pop_fsm domain fresh init enc dec0 states og =
+  pop_fsm fresh init enc dec0 (map (fun sb : nat * DslGen.ddict => (fst sb, DslGen.py_get (snd sb) domain [])) states) og.
+Proof. exact (GenEqDsl.gen_pop_fsm_eq domain fresh init enc dec0 states og). Qed.
+Print Assumptions C02_translated_pop_fsm.
+
+(* first reference of a state name in Module.State, in the `m.next = ` setter and in FSM.ongoing *)
+Theorem C02_translated_state_alloc enc og s fresh : DslGen.g_state_alloc enc og s fresh = fsm_ref (enc, og) s fresh.
+Proof. exact (GenEqDsl.gen_state_alloc_eq enc og s fresh). Qed.
+Print Assumptions C02_translated_state_alloc.
+Theorem C02_translated_next_alloc enc og s fresh : DslGen.g_next_alloc enc og s fresh = fsm_ref (enc, og) s fresh.
+Proof. exact (GenEqDsl.gen_next_alloc_eq enc og s fresh). Qed.
+Print Assumptions C02_translated_next_alloc.
+Theorem C02_translated_ongoing_alloc enc og s fresh : DslGen.g_ongoing_alloc enc og s fresh = fsm_ref (enc, og) s fresh.
+Proof. exact (GenEqDsl.gen_ongoing_alloc_eq enc og s fresh). Qed.
+Print Assumptions C02_translated_ongoing_alloc.
